@@ -300,7 +300,8 @@ impl Check for Spending {
                     }
                 }
             }
-            st.state(&(m.installed.is_some(), m.live().len().min(6)));
+            let room_class = m.installed.map(|(l, _)| { let spent: i128 = m.live().iter().map(|x| x.1).fold(0i128, |a, b| a.saturating_add(b)); (l.saturating_sub(spent)).signum() as i8 });
+            st.state(&(m.installed.is_some(), m.live().len().min(6), room_class, m.hist.len().min(4) > m.live().len().min(4), std::mem::discriminant(s)));
         }
         Ok(())
     }
